@@ -525,7 +525,7 @@ def run(chk: Check):
     quick = chk.tier == 'quick'
     ignore_extract.run(chk)
     model = chk.lean('XvcIgnore', 'XvcIgnore.Props.C09', exe='ignoremodel',
-                     extra_modules=['XvcIgnore.Glob', 'XvcIgnore.Pattern', 'XvcIgnore.Walk', 'XvcIgnore.Lemmas', 'XvcIgnore.WalkLemmas'])
+                     extra_modules=['XvcIgnore.Glob', 'XvcIgnore.Pattern', 'XvcIgnore.Walk', 'XvcIgnore.Lemmas', 'XvcIgnore.WalkLemmas', 'XvcIgnore.PStep'])
     impl, hooked = build_harness(chk)
     xvc = build_xvc(chk, hooked)
     if not os.path.exists(model):
@@ -540,8 +540,8 @@ def run(chk: Check):
         'schedule perturbation: none available (xvc-walker has no `verif` feature in this tree); parallel walks are only repeated',
     ]
     chk.assumptions += [
-        'the interleavings of walk_parallel are over-approximated by `walkWith extra`: update_ignore_rules(dir) happens before the checks of dir\'s children (program order in walk_parallel_inner) and a directory is queued only after its own check; each check and each append is atomic (RwLock)',
-        'directory names contain none of * ? [ \\ (PlainDir): Pattern::new does not escape the directory it prefixes to a glob',
+        'the threads of walk_parallel / the loop of walk_serial are modelled by the transition system PStep (PStep.lean) at the granularity of the code\'s RwLock: update_ignore_rules(dir) is one atomic append that precedes the checks of dir\'s children (program order in walk_parallel_inner / walk_serial), each check is atomic, a directory is queued only after its own check; any pending directory and any unchecked child may be taken next (C09_every_schedule). `walkWith extra` (C09_parallel_deterministic) is the same statement with the interference as an explicit parameter',
+        'TreeOk / PlainDir: entry names are non-empty, contain no / (true of every file system) and none of * ? [ \\ — Pattern::new does not escape the directory it prefixes to a glob, so a directory called `*` would un-confine the patterns of its ignore file (not generated; stated as hypothesis of the theorems)',
         'C09_never_enters_xvc_git assumes no whitelist line matches an entry called .xvc/.git (SafeWhite); the excluded region is the proved C09_whitelist_escape_counterexample and is replayed on the implementation',
         'ignore files and names are ASCII in the correspondence streams',
     ]
